@@ -35,6 +35,54 @@ Definition len_tag (p : string) (n : nat) : string :=
 
 Definition has_multibyte (s : list N) : bool := existsb (fun b => 128 <=? b)%N s.
 
+(* ---- hardening round 4: the function handed to Fmap is an input of the case ----
+   The kinds fmap-slice-fn / fmap-string-fn carry a description of f on element ids:
+       (m b q lo (k v) ...)     f x = wrap (v if (x v) is in the table, else m*x + b)
+       wrap y = y                      if q <= 0
+              = lo + (y - lo) mod q    otherwise (the way a Go conversion to an integer type of q values
+                                       starting at lo wraps)
+   so that f can return the awkward values of its result type: negative numbers, zero values, surrogates and
+   values above 0x10FFFF for rune results, bytes >= 0x80 for byte results.  The theorems of Properties/C17.v
+   quantify over every f, so model and specification are the same functions as above applied to this f. *)
+Record fspec := { fs_m : Z; fs_b : Z; fs_q : Z; fs_lo : Z; fs_tbl : list (Z * Z) }.
+
+Definition pair_of (e : sexp) : option (Z * Z) :=
+  match e with L [Num k; Num v] => Some (k, v) | _ => None end.
+
+Definition fspec_of (e : sexp) : option fspec :=
+  match e with
+  | L (Num m :: Num b :: Num q :: Num lo :: t) =>
+      option_map (fun tbl => {| fs_m := m; fs_b := b; fs_q := q; fs_lo := lo; fs_tbl := tbl |})
+                 (map_opt pair_of t)
+  | _ => None
+  end.
+
+Fixpoint lookupZ (x : Z) (t : list (Z * Z)) : option Z :=
+  match t with
+  | [] => None
+  | (k, v) :: t' => if Z.eqb k x then Some v else lookupZ x t'
+  end.
+
+Definition wrapZ (lo q y : Z) : Z :=
+  if (0 <? q)%Z then (lo + (y - lo) mod q)%Z else y.
+
+Definition fn_of (fs : fspec) (x : Z) : Z :=
+  wrapZ (fs_lo fs) (fs_q fs)
+        (match lookupZ x (fs_tbl fs) with
+         | Some v => v
+         | None => (fs_m fs * x + fs_b fs)%Z
+         end).
+
+(* class of the values f returned on this input (for the coverage tags) *)
+Definition nonscalar (y : Z) : bool :=
+  ((55296 <=? y) && (y <=? 57343) || (1114111 <? y))%Z.
+Definition out_class (out : list Z) : string :=
+  if existsb (fun y => y <? 0)%Z out then "neg"
+  else if existsb nonscalar out then "nonscalar"
+  else if existsb (Z.eqb 0) out then "zero"
+  else if existsb (fun y => (128 <=? y) && (y <=? 255))%Z out then "highbyte"
+  else match out with [] => "empty" | _ => "plain" end.
+
 Definition eval17 (e : sexp) : verdict :=
   match e with
   | L [Sym k; a; real] =>
@@ -54,6 +102,35 @@ Definition eval17 (e : sexp) : verdict :=
                                (fmap_string (fun r => f17 (Z.of_N r)) 0%Z s)))
                (res_sexp (Ret (map f17 rs, rs))) real
         | None => bad_line
+        end
+      else if String.eqb k "fmap-slice-fn" then
+        match a with
+        | L [fe; le] =>
+            match fspec_of fe, get_zs le with
+            | Some fs, Some l =>
+                let f := fn_of fs in
+                mk ("fmap-slice-fn/" ++ out_class (map f l))
+                   (res_sexp3 l (fmap_slice f 0%Z l))
+                   (res_sexp3 l (Ret (map f l, l))) real
+            | _, _ => bad_line
+            end
+        | _ => bad_line
+        end
+      else if String.eqb k "fmap-string-fn" then
+        match a with
+        | L [fe; se] =>
+            match fspec_of fe, get_ns se with
+            | Some fs, Some s =>
+                let f := fn_of fs in
+                let rs := map Z.of_N (runes s) in
+                mk ((if has_multibyte s then "fmap-string-fn/multibyte/" else "fmap-string-fn/ascii/")
+                      ++ out_class (map f rs))
+                   (res_sexp (omap (fun '(o, l) => (o, map Z.of_N l))
+                                   (fmap_string (fun r => f (Z.of_N r)) 0%Z s)))
+                   (res_sexp (Ret (map f rs, rs))) real
+            | _, _ => bad_line
+            end
+        | _ => bad_line
         end
       else if String.eqb k "join-slices" then
         match gslice2_of a with
